@@ -2,6 +2,7 @@ package main
 
 import (
 	"fmt"
+	"runtime"
 
 	"github.com/willabides/rjson"
 )
@@ -31,7 +32,7 @@ func (c14) Required(tier string) []string {
 	return []string{"B-scribble", "B-resize", "H-reenter", "H-error", "H-nested", "reenter-with-enclosing-buffer", "scribble-inside-callback",
 		// ("reentrant-call-grew-shared-stack", "stack-grown-by-call" and "call-on-prewarmed-stack" look at the
 		// Buffer's own representation: reported, not required - a Buffer that keeps its memory differently must not break the check)
-		"call-after-failed-call", "call-after-depth-limit-exit", "call-after-handler-abort", "input-in-reused-arena", "same-address-same-length-different-bytes", "history-of-10000-calls", "retry-on-the-completed-message-after-a-partial-one"}
+		"call-after-failed-call", "call-after-depth-limit-exit", "call-after-handler-abort", "input-in-reused-arena", "same-address-same-length-different-bytes", "history-of-10000-calls", "retry-on-the-completed-message-after-a-partial-one", "G-gc"}
 }
 
 var bufOps = []string{"Valid", "SkipValue", "SkipValueFast", "HandleArrayValues", "HandleObjectValues"}
@@ -182,6 +183,20 @@ func (c14) Gen(r *Rand, sc *Scenario, tier string) {
 		}
 	}
 	sc.Tasks = [][]Op{ops}
+	if r.Chance(1, 30) && len(ops) <= 12 {
+		sc.Cfg["gc-between-calls"] = 1
+	}
+}
+
+// gcBetween runs two garbage collections between two calls of a history when the scenario asks for
+// it (fault G-gc): sync.Pools are emptied, finalizers run, weak references die - whatever a library
+// parks there must not be needed for a correct result.
+func gcBetween(sc *Scenario, st *Stats, oi int) {
+	if oi > 0 && sc.cfg("gc-between-calls") == 1 {
+		runtime.GC()
+		runtime.GC()
+		st.fault("G-gc")
+	}
 }
 
 func (c14) Exec(sc *Scenario, st *Stats) *Violation {
@@ -206,6 +221,7 @@ func (c14) Exec(sc *Scenario, st *Stats) *Violation {
 		if op.Doc >= len(sc.Docs) {
 			continue
 		}
+		gcBetween(sc, st, oi)
 		d := sc.Docs[op.Doc]
 		dataA, dataB := d.Bytes(), d.Bytes()
 		if op.B&2 != 0 {
